@@ -26,6 +26,47 @@ def eval_cases(ctx, name, header, exprs, shard):
                 raise CheckError("rebuild after a concurrent Generated.v change failed:\n" + out[-2000:])
 
 
+EXPECTED_SHAPE = [
+    'Definition archive_manifest_name_read : string := "manifest.json".',
+    'Definition archive_manifest_name_written : string := "manifest.json".',
+    'Definition archive_read_dispatch : list (string * string) := [(".secret.enc", "secret_enc"); '
+    '(".meta.json", "meta"); (".secret.yaml", "secret_yaml"); (".yaml", "cr")].',
+    'Definition archive_written : list (string * string) := [("cr", ".yaml"); ("meta", ".meta.json"); '
+    '("secret_enc", ".secret.enc"); ("secret_yaml", ".secret.yaml")].',
+    'Definition backup_salt_length : Z := 16.', 'Definition backup_nonce_length : Z := 12.',
+]
+
+
+def check_shape(ctx):
+    """The tables the theorems were proved for (C33_generated_tables), re-read from the source
+    directly as well: concurrent checks share Generated.v and may rewrite it from another tree."""
+    import translate
+    import translate_archive as TA
+    try:
+        shape = TA.extract(translate.src)
+    except (TA.Err, translate.TranslateError, SyntaxError, OSError) as e:
+        shape = "TRANSLATE-ERROR: %s" % e
+    missing = [l for l in EXPECTED_SHAPE if l not in shape]
+    if missing and not ctx.broken_obligations:
+        ctx.broken_obligations.append(("C33_generated_tables (source tables, re-read directly)",
+                                       "expected but not found:\n" + "\n".join(missing) + "\n--- extracted:\n" + shape))
+
+
+def model_trace(ctx, meta):
+    """The model's complete encodings for a disagreeing case (the suite sends hashes of them)."""
+    try:
+        terms = []
+        if meta["kind"] == "create+read":
+            terms.append("create_trace " + meta["inputs"])
+        for pw in meta["read_pws"]:
+            terms.append("read_trace %s %s" % (S.gopt(S.gz, pw), meta["g_members"]))
+        out = ctx.eval_terms(S.HEADER, terms)
+        return dict(create=out[0] if meta["kind"] == "create+read" else None,
+                    reads=out[1:] if meta["kind"] == "create+read" else out)
+    except CheckError as e:
+        return "unavailable: %s" % str(e)[:300]
+
+
 def gen_names(rng, valid=True):
     k = rng.choice([0, 1, 1, 2, 3, 4, 6])
     names = []
@@ -49,8 +90,8 @@ def gen_arbitrary(rng, case):
     if rng.random() < 0.85:
         ms.append(("manifest.json", True, rng.choice([
             ("manifest", 1, rng.randrange(3), rng.randrange(3), rng.randrange(5), rng.random() < 0.5),
-            ("manifest", 1, 0, 0, 0, False), ("manifest", rng.choice([0, 2]), 0, 1, 1, True), ("rawshort",)])
-            if rng.random() < 0.9 else ("rawlong",)))
+            ("manifest", 1, 0, 0, 0, False), ("manifest", 1, 2, 1, 3, True), ("manifest", rng.choice([0, 2]), 0, 1, 1, True)])
+            if rng.random() < 0.93 else rng.choice([("rawlong",), ("rawshort",)])))
     stems = ["a", "b", "a.secret", "a.meta", "web", "web.secret", "x.y", "manifest", "manifest.json", "a.secret.enc",
              "", ".secret", "dir/a"]
     for _ in range(rng.randrange(0, 9)):
@@ -66,11 +107,13 @@ def gen_arbitrary(rng, case):
         elif name.endswith(".enc"):
             blob = rng.choice([("enc", rng.randrange(len(S.PWS)), ("yaml", rng.choice(docs))) if docs else ("rawlong",),
                                ("enc", 1, ("yaml", rng.choice(docs))) if docs else ("rawshort",),
-                               ("rawlong",), ("rawshort",), ("enc", 2, ("rawshort",))])
+                               ("enc", 1, ("yaml", rng.choice(docs))) if docs else ("rawshort",),
+                               rng.choice([("rawlong",), ("rawshort",), ("enc", 2, ("rawshort",))])])
         elif name.endswith(".json"):
-            blob = rng.choice([("gen", rng.choice([0, 1, 5])), ("gen", None), ("gen", 3), ("rawshort",)])
+            blob = rng.choice([("gen", rng.choice([0, 1, 5])), ("gen", None), ("gen", 3), ("gen", 9), ("gen", 2)]
+                              + ([("rawshort",)] if rng.random() < 0.2 else []))
         else:
-            blob = ("yaml", rng.choice(docs)) if docs and rng.random() < 0.9 else ("rawshort",)
+            blob = ("yaml", rng.choice(docs)) if docs and rng.random() < 0.96 else ("rawshort",)
         ms.append((name, isfile, blob))
     if rng.random() < 0.3:
         rng.shuffle(ms)
@@ -104,15 +147,16 @@ def run(ctx):
                        "with a stand-in for the absent `cryptography` library; encryption.py's own code (salt/nonce "
                        "layout, header-length check) is modelled and tied")
     ctx.prove()
+    check_shape(ctx)
     rng = random.Random(ctx.seed)
-    n_valid = ctx.n(260, 5000)
-    n_invalid = ctx.n(60, 1200)
-    n_arb = ctx.n(260, 5000)
+    n_valid = ctx.n(160, 5000)
+    n_invalid = ctx.n(40, 1200)
+    n_arb = ctx.n(200, 5000)
 
     exprs, metas, mon_fail = [], [], []
     cov = dict(encrypted=0, plain=0, empty_password=0, no_secret=0, empty_secret=0, gen_zero=0, lookalike=0,
-               wrong_password_rejected=0, no_password_rejected=0, long_name=0, unused_secret=0, arb_error=0, arb_ok=0,
-               arb_overwrite=0, dotted_misrouted=0)
+               wrong_password_on_encrypted=0, no_password_on_encrypted=0, long_name=0, unused_secret=0,
+               arb_with_manifest=0, arb_without_manifest=0, arb_overwrite=0, arb_encrypted_member=0, dotted_secret_name=0)
 
     def add(expr, meta, key):
         exprs.append(expr)
@@ -129,23 +173,29 @@ def run(ctx):
         members = [(n, f, S.abstract(case, c)) for n, f, c in raw]
         shape = tuple(re.sub(r"^.*?((\.[a-z]+)*)$", r"\1", n) for n, _, _ in raw)
         pwc = "none" if case.pw is None else "empty" if case.pw == 0 else "set"
-        add(S.create_expr(case, members), dict(kind="create", names=names, pw=pwc), ("create", shape, pwc, valid))
         # read it back: same password, a different one, none
+        reads = []
+        has_enc = any(b[0] == "enc" for _, _, b in members)
         for pw2 in (case.pw, (case.pw or 0) % 3 + 1 if case.pw else 2, None):
             enc, _ = S.real_read(case, data, pw2)
-            add(S.read_expr(pw2, members, enc), dict(kind="read-created", names=names, pw=pwc, read_pw=pw2),
-                ("read", shape, pwc, pw2 == case.pw, tuple(enc[:2])))
-            if pw2 != case.pw and enc[:2] == [-1, 2]:
-                cov["wrong_password_rejected"] += 1
-            if pw2 is None and enc[:2] == [-1, 1]:
-                cov["no_password_rejected"] += 1
+            reads.append((pw2, enc))
+            if has_enc and pw2 is not None and pw2 != case.pw:
+                cov["wrong_password_on_encrypted"] += 1
+            if has_enc and pw2 is None:
+                cov["no_password_on_encrypted"] += 1
+        add(S.archive_expr(case, members, reads), dict(kind="create+read", names=names, pw=pwc, inputs=case.g_args(),
+                                                        read_pws=[p for p, _ in reads], g_members=S.g_members(members),
+                                                        implementation=dict(members=S.enc_members(members),
+                                                                            reads=[e for _, e in reads])),
+            ("archive", shape, pwc, valid, tuple(tuple(e[:2]) for _, e in reads)))
+        ctx.count(3)
         secs = dict(case.secrets)
         if valid and len(set(names)) == len(names) and all(S.is_valid(n) for n in names):
             f = S.monitor_roundtrip(case, data)
             if f:
                 mon_fail.append((f, dict(inputs=json.loads(json.dumps(args, default=str)))))
-            for d in case.docs.values():
-                if S.yaml.safe_load(S.yaml.dump(d, default_flow_style=False)) != d:
+            for di, d in case.docs.items():
+                if S.yaml.safe_load(case.dump(di)) != d:
                     mon_fail.append((("C33/yaml-roundtrip", "yaml.safe_load(yaml.dump(d)) != d for %r" % (d,)),
                                      dict(document=repr(d))))
             cov["encrypted" if case.pw else "plain"] += 1 if any(n in secs for n in names) else 0
@@ -157,9 +207,7 @@ def run(ctx):
             cov["long_name"] += any(len(n) >= 62 for n in names)
             cov["unused_secret"] += any(n not in names for n in secs)
         elif not valid:
-            enc, _ = S.real_read(case, data, case.pw)
-            if enc[0] == 0 and len(names) and enc[6:] != _expected_entries(case):
-                cov["dotted_misrouted"] += 1
+            cov["dotted_secret_name"] += any(n.endswith(".secret") or n.endswith(".meta") for n in names)
         if i < 3:
             ctx.sample(dict(kind="create+read", names=names, password=pwc, members=[m[0] for m in raw]))
 
@@ -169,15 +217,17 @@ def run(ctx):
         data = S.mktar([(n, f, S.concretise(case, b)) for n, f, b in ms])
         pw = rng.choice([None, 0, 1, 1, 2])
         enc, _ = S.real_read(case, data, pw)
-        cov["arb_ok" if enc[0] == 0 else "arb_error"] += 1
+        cov["arb_with_manifest" if any(n == "manifest.json" and f for n, f, _ in ms) else "arb_without_manifest"] += 1
+        cov["arb_encrypted_member"] += any(b[0] == "enc" for _, _, b in ms)
         nm = [n for n, f, _ in ms if f]
         cov["arb_overwrite"] += len(set(nm)) < len(nm)
-        add(S.read_expr(pw, ms, enc), dict(kind="read-arbitrary", members=[m[0] for m in ms], pw=pw),
+        add(S.members_expr(ms, [(pw, enc)]), dict(kind="read-arbitrary", members=[m[0] for m in ms], pw=pw,
+                                                   implementation=enc, read_pws=[pw], g_members=S.g_members(ms)),
             ("arb", tuple(n for n, _, _ in ms), pw, tuple(enc[:2])))
         if i < 2:
             ctx.sample(dict(kind="read-arbitrary", members=[(n, f, b[0]) for n, f, b in ms], password=pw, result=enc[:8]))
 
-    res = eval_cases(ctx, "archive", S.HEADER, exprs, ctx.n(120, 600))
+    res = eval_cases(ctx, "archive", S.HEADER, exprs, ctx.n(50, 400))
     bad = [i for i, z in enumerate(res) if z != 0]
     wexprs, wmetas, layout_ok = S.wire_cases(rng, ctx.n(60, 600))
     wres = eval_cases(ctx, "archive.wire", S.WIRE_HEADER, wexprs, 600)
@@ -192,8 +242,9 @@ def run(ctx):
     ctx.suite("archive", cases=len(exprs), kinds=kinds, disagreements=len(bad), coverage=cov)
     ctx.suite("archive.wire", cases=len(wexprs), disagreements=len(wbad), encrypt_layout_ok=layout_ok)
     for c, m in (("encrypted", 20), ("plain", 20), ("empty_password", 5), ("no_secret", 20), ("gen_zero", 5),
-                 ("lookalike", 20), ("wrong_password_rejected", 20), ("no_password_rejected", 10), ("long_name", 5),
-                 ("unused_secret", 10), ("arb_error", 20), ("arb_ok", 20), ("arb_overwrite", 5), ("dotted_misrouted", 3)):
+                 ("lookalike", 20), ("wrong_password_on_encrypted", 20), ("no_password_on_encrypted", 10),
+                 ("long_name", 5), ("unused_secret", 10), ("arb_with_manifest", 20), ("arb_without_manifest", 5),
+                 ("arb_overwrite", 5), ("arb_encrypted_member", 10), ("dotted_secret_name", 3)):
         ctx.require_coverage("archive", c, cov[c], m)
     ctx.disagreements += len(bad) + len(wbad)
     ctx.disagreements_checked = len(bad) + len(wbad)
@@ -208,20 +259,12 @@ def run(ctx):
     if (bad or wbad or bad_layout) and not mon_fail:
         ctx.violation("model/implementation disagreement in suite archive (no property-level failing input found)",
                       dict(suite="archive", theorem=THEOREMS + " (Model/Archive.v no longer matches archive.py / encryption.py)",
-                           cases=[dict(meta=metas[i], coq=exprs[i][:1500]) for i in bad[:3]]
+                           cases=[dict(meta=metas[i], result_code=res[i], model=model_trace(ctx, metas[i]),
+                                       coq=exprs[i][:1500]) for i in bad[:3]]
                            + [dict(meta=wmetas[i], coq=wexprs[i][:600]) for i in wbad[:3]],
                            encrypt_layout_ok=layout_ok), found_input=False)
     elif bad or wbad:
         ctx.notes.append("%d model/implementation disagreements accompany the monitor failures" % (len(bad) + len(wbad)))
-
-
-def _expected_entries(case):
-    out = []
-    secs = dict(case.secrets)
-    gens = dict(case.gens or [])
-    for i, n in case.tbl:
-        out += S.enc_str(n) + [i] + S.enc_opt(secs.get(n)) + S.enc_opt(gens.get(n))
-    return out
 
 
 def replay(ctx, path):
